@@ -1208,8 +1208,8 @@ func (p *prover) collectEdge(q ssa.Instruction, to *ssa.BasicBlock) *collector {
 	}
 	// exit guards: not(c1 && ... && ck) where all but one conjunct are known
 	for _, g := range exitGuardsCached(q.Parent()) {
-		if !g.Head.Dominates(q.Block()) || g.Exit.Dominates(q.Block()) {
-			continue
+		if !g.Head.Dominates(q.Block()) || g.Exit.Dominates(q.Block()) || g.Head == q.Block() {
+			continue // the negation only holds after the branch has been passed without exiting
 		}
 		if len(g.Conj) == 1 {
 			// plain `if c { return }`: covered by edge dominance unless the join has other preds
@@ -1269,6 +1269,20 @@ func (p *prover) leEdge(a ssa.Value, aLen bool, ca int64, b ssa.Value, bLen bool
 	ta.off += ca
 	tb.off += cb
 	cl.f.close()
+	if os.Getenv("WLDEBUG") == "le" {
+		fmt.Fprintf(os.Stderr, "LE %v <= %v at %s: %v inconsistent=%v\n", ta, tb, q.Parent().Name(), cl.f.le(ta, tb, 0), cl.f.inconsistent())
+		for n, i := range cl.f.idx {
+			for m, j := range cl.f.idx {
+				if i != j && cl.f.d[i][j] < inf {
+					fmt.Fprintf(os.Stderr, "   %q - %q <= %d\n", n, m, cl.f.d[i][j])
+				}
+			}
+		}
+	}
+	if cl.f.inconsistent() {
+		// contradictory facts: the point is unreachable or a fact is wrong - never use that as a proof
+		return false
+	}
 	if cl.f.le(ta, tb, 0) {
 		return true
 	}
